@@ -29,6 +29,7 @@ use lkmex_transfer::LkmexTransfer as _;
 use locked_token_wrapper::wrapped_token::{WrappedTokenAttributes, WrappedTokenModule as _};
 use locked_token_wrapper::LockedTokenWrapper as _;
 use multiversx_sc_modules::pause::PauseModule as _;
+use permissions_module::PermissionsModule as _;
 use sc_whitelist_module::SCWhitelistModule as _;
 use simple_lock::locked_token::LockedTokenModule as _;
 use token_unstake::cancel_unstake::CancelUnstakeModule as _;
@@ -538,6 +539,8 @@ impl World for EnergyWorld {
         .assert_ok();
         b.execute_tx(&owner, &tr, &zero, |sc| {
             sc.init(managed_address!(&fa), managed_token_id!(LOCKED), min_lock, cooldown);
+            // `cancelTransfer` wants the ADMIN bit; `init` only gives the deployer OWNER
+            sc.add_permissions(managed_address!(&owner), permissions_module::Permissions::OWNER | permissions_module::Permissions::ADMIN);
         })
         .assert_ok();
         b.execute_tx(&owner, &wr, &zero, |sc| {
@@ -1137,6 +1140,41 @@ impl EnergyWorld {
         if hold.is_empty() && matches!(k, 1 | 2 | 3 | 4 | 5 | 8 | 11) && rng.chance(4, 5) {
             k = 0;
         }
+        let any_queue = s.users.iter().any(|x| !x.queue.is_empty());
+        let any_ripe = s.users.iter().any(|x| x.queue.first().map(|q| q.0 <= now).unwrap_or(false));
+        let any_expired = hold.iter().any(|h| h.3 <= now);
+        if (k == 6 || k == 7) && !any_queue && rng.chance(4, 5) {
+            k = 4;
+        }
+        if k == 6 && any_queue && !any_ripe && rng.chance(1, 2) {
+            let t = s.users.iter().filter_map(|x| x.queue.first().map(|q| q.0)).min().unwrap();
+            return ('O', format!("advance {}", t.max(now)));
+        }
+        if k == 2 && !any_expired && !hold.is_empty() && rng.chance(3, 5) {
+            let t = hold.iter().map(|h| h.3).min().unwrap() + rng.range(0, 40);
+            return ('O', format!("advance {}", t.max(now)));
+        }
+        if (k == 9 || k == 10) && s.xfers.is_empty() && rng.chance(4, 5) {
+            k = 8;
+        }
+        if k == 5 {
+            let feasible = hold.iter().any(|h| h.3 > now && s.opts.iter().any(|o| o.0 - (now + o.0) % 30 < h.3 - now));
+            if !feasible && rng.chance(7, 10) {
+                k = 4;
+            }
+        }
+        // a burst of more than MAX_CLAIM_UNLOCKED_TOKENS early unlocks, then claims
+        if rng.chance(1, 120) && !s.paused {
+            if let Some(h) = hold.iter().find(|h| h.3 > now + self.unbond && h.2 > BigUint::from(30u32) && f_penalty(&s.opts, &BigUint::from(3u32), h.3 - now, 0).map(|p| p < BigUint::from(3u32)).unwrap_or(false)) {
+                self.pending.push(format!("claim {}", h.0));
+                self.pending.push(format!("claim {}", h.0));
+                self.pending.push(format!("advance {}", now + self.unbond));
+                for _ in 0..(22 - s.users[(h.0 - 1) as usize].queue.len().min(21)) {
+                    self.pending.push(format!("unlockEarly {} {} 3", h.0, h.1));
+                }
+                return ('O', self.pending.pop().unwrap());
+            }
+        }
         match k {
             0 => {
                 let amt = match rng.below(10) {
@@ -1191,7 +1229,10 @@ impl EnergyWorld {
                 if k == 2 {
                     ('O', format!("unlock {} {}", usr, show_pays(&ps, ",")))
                 } else {
-                    let orig = match rng.below(10) { 0 => usr, 1 => other(rng), _ => 0 };
+                    // a whitelisted contract naming somebody else as original caller is trusted to hold
+                    // the tokens on that account's behalf (energy and tokens part company by design):
+                    // only generated for callers that are NOT whitelisted, where it must fail
+                    let orig = match rng.below(10) { 0 => usr, 1 => if s.wl.contains(&usr) { usr } else { other(rng) }, _ => 0 };
                     ('O', format!("merge {} {} {}", usr, orig, show_pays(&ps, ",")))
                 }
             }
@@ -1203,6 +1244,11 @@ impl EnergyWorld {
                     1 => BigUint::from(2u32).min(h.2.clone()),
                     _ => Self::amt_of(rng, &h.2),
                 };
+                let h = if k == 5 {
+                    let feas: Vec<&(u64, u64, BigUint, u64)> = hold.iter().filter(|h| h.3 > now && s.opts.iter().any(|o| o.0 - (now + o.0) % 30 < h.3 - now)).collect();
+                    if !feas.is_empty() && rng.chance(9, 10) { (*rng.pick(&feas)).clone() } else { h }
+                } else { h };
+                let amt = if amt > h.2 && rng.chance(9, 10) { h.2.clone() } else { amt };
                 let prev = h.3.saturating_sub(now);
                 if k == 4 {
                     let op = format!("unlockEarly {} {} {}", h.0, h.1, amt);
@@ -1211,7 +1257,11 @@ impl EnergyWorld {
                     }
                     ('O', op)
                 } else {
-                    let ep = listed(rng);
+                    let mut ep = listed(rng);
+                    for _ in 0..4 {
+                        if ep >= 30 && ep - (now + ep) % 30 < prev { break; }
+                        ep = listed(rng);
+                    }
                     let op = format!("reduce {} {} {} {}", h.0, h.1, amt, ep);
                     let newep = ep.saturating_sub((now + ep) % 30);
                     if rng.chance(1, 2) && prev > 0 {
@@ -1222,7 +1272,8 @@ impl EnergyWorld {
             }
             6 | 7 => {
                 let withq: Vec<u64> = s.users.iter().enumerate().filter(|(_, x)| !x.queue.is_empty()).map(|(i, _)| i as u64 + 1).collect();
-                let c = if !withq.is_empty() && rng.chance(9, 10) { *rng.pick(&withq) } else { u };
+                let ripe: Vec<u64> = s.users.iter().enumerate().filter(|(_, x)| x.queue.first().map(|q| q.0 <= now).unwrap_or(false)).map(|(i, _)| i as u64 + 1).collect();
+                let c = if k == 6 && !ripe.is_empty() && rng.chance(4, 5) { *rng.pick(&ripe) } else if !withq.is_empty() && rng.chance(9, 10) { *rng.pick(&withq) } else { u };
                 ('O', format!("{} {}", if k == 6 { "claim" } else { "cancel" }, c))
             }
             8 => {
@@ -1241,7 +1292,11 @@ impl EnergyWorld {
                 ('O', format!("lockFunds {} {} {}", usr, rcv, show_pays(&ps, ",")))
             }
             9 => {
-                if !s.xfers.is_empty() && rng.chance(9, 10) {
+                let ripe: Vec<&(u64, u64, u64, Pays)> = s.xfers.iter().filter(|x| now > x.2 + self.min_lock).collect();
+                if !ripe.is_empty() && rng.chance(4, 5) {
+                    let x = rng.pick(&ripe);
+                    ('O', format!("withdraw {} {}", x.0, x.1))
+                } else if !s.xfers.is_empty() && rng.chance(9, 10) {
                     let x = rng.pick(&s.xfers);
                     ('O', format!("withdraw {} {}", x.0, x.1))
                 } else {
@@ -1269,6 +1324,9 @@ impl EnergyWorld {
                     }
                 }
                 if wh.is_empty() {
+                    if let Some(h) = hold.iter().find(|h| h.3 > now) {
+                        return ('O', format!("wrap {} {} {}", h.0, h.1, Self::amt_of(rng, &h.2)));
+                    }
                     return ('O', format!("unwrap {} {} 1", u, rng.range(0, 2)));
                 }
                 let h = rng.pick(&wh).clone();
@@ -1369,13 +1427,347 @@ impl EnergyWorld {
     }
 }
 
-// @@ORACLE-BEGIN@@
-impl EnergyWorld {
-    #[allow(clippy::too_many_arguments)]
-    fn oracles(&mut self, _tr: &mut Trace, _site: &str, _pre: &Snap, _post: &Snap, _ok: bool, _inf: &Info, _pre_line: &str, _post_line: &str) {}
-    fn oracle_penalty_view(&mut self, _tr: &mut Trace, _pre: &Snap, _amt: &BigUint, _prev: u64, _new: u64, _got: Option<BigUint>) {}
+// ---------------------------------------------------------------------------------------
+// oracles: the properties' statements evaluated directly on the real state, with formulas
+// recomputed here from the property text / README (nothing below calls the model)
+// ---------------------------------------------------------------------------------------
+
+/// penalty percentage for a full unlock with `rem` epochs left: the piecewise-linear function
+/// through (0,0), (e_1,p_1), …, (e_k,p_k), rounded down; undefined beyond the longest option
+fn f_pct_full(opts: &[(u64, u64)], rem: u64) -> Option<BigUint> {
+    let mut pts: Vec<(u64, u64)> = vec![(0, 0)];
+    pts.extend_from_slice(opts);
+    for j in 1..pts.len() {
+        if rem <= pts[j].0 {
+            let (e0, p0) = pts[j - 1];
+            let (e1, p1) = pts[j];
+            let num = BigUint::from(p0) * BigUint::from(e1 - rem) + BigUint::from(p1) * BigUint::from(rem - e0);
+            return Some(num / BigUint::from(e1 - e0));
+        }
+    }
+    None
 }
-// @@ORACLE-END@@
+
+/// amount * p / 10000 with p = full(prev) for a full unlock and (p_old − p_new)/(1 − p_new) for a reduction
+fn f_penalty(opts: &[(u64, u64)], amt: &BigUint, prev: u64, new: u64) -> Option<BigUint> {
+    if prev == 0 || new >= prev || opts.is_empty() {
+        return None;
+    }
+    let m = BigUint::from(MAXPCT);
+    let pp = f_pct_full(opts, prev)?;
+    let pct = if new == 0 {
+        pp
+    } else {
+        let pn = f_pct_full(opts, new)?;
+        if pn > pp || pn >= m {
+            return None;
+        }
+        (pp - &pn) * &m / (&m - &pn)
+    };
+    Some(amt * pct / m)
+}
+
+fn som(e: u64) -> u64 {
+    e - e % 30
+}
+
+impl EnergyWorld {
+    /// C08 on one snapshot
+    fn oracle_c08(&self, tr: &mut Trace, site: &str, s: &Snap) {
+        for (i, u) in s.users.iter().enumerate() {
+            let mut exp_e = BigInt::zero();
+            let mut exp_t = BigUint::zero();
+            for (k, a) in u.locked.iter().enumerate() {
+                let d = BigInt::from(s.nonces[k]) - BigInt::from(s.epoch);
+                exp_e += BigInt::from(a.clone()) * d;
+                exp_t += a;
+            }
+            if u.view.0 != exp_e {
+                tr.fail("C08", "energy_eq_sum", site, &format!("u{} entry {} but sum amount*(unlock-now) = {}", i + 1, u.view.0, exp_e));
+            }
+            if u.view.2 != exp_t {
+                tr.fail("C08", "total_eq_sum", site, &format!("u{} total_locked {} but sum of amounts = {}", i + 1, u.view.2, exp_t));
+            }
+            if u.view.1 != s.epoch {
+                tr.fail("C08", "view_depleted_to_now", site, &format!("u{} last_update {} now {}", i + 1, u.view.1, s.epoch));
+            }
+            let pos = if exp_e.sign() == Sign::Plus { exp_e.magnitude().clone() } else { BigUint::zero() };
+            if u.amount != pos {
+                tr.fail("C08", "amount_view", site, &format!("u{} getEnergyAmountForUser {} expected {}", i + 1, u.amount, pos));
+            }
+            if exp_e.sign() == Sign::Minus {
+                tr.count("branch.negative_energy");
+            }
+        }
+        if s.sce || s.sc_views.iter().any(|(e, t)| !e.is_zero() || !t.is_zero()) {
+            tr.fail("C08", "escrow_gives_nothing", site, "an escrow contract has an energy entry");
+        }
+    }
+
+    #[allow(clippy::too_many_arguments)]
+    fn oracles(&mut self, tr: &mut Trace, site: &str, pre: &Snap, post: &Snap, ok: bool, inf: &Info, pre_line: &str, post_line: &str) {
+        self.oracle_c08(tr, site, post);
+        // ---- supply ledgers (every transaction)
+        let lhs = &post.base_supply + &self.g.bl + &self.g.bc;
+        let rhs = &self.base_init + &self.g.mu + &self.g.me;
+        if lhs != rhs {
+            tr.fail("C09", "base_supply_delta", site, &format!("supply {} + burned(lock {}, cancel {}) != initial {} + minted(unlock {}, early {})",
+                post.base_supply, self.g.bl, self.g.bc, self.base_init, self.g.mu, self.g.me));
+        }
+        let lhs = &post.base_supply + &post.circ + &post.pp + &self.g.pb + &self.g.co;
+        let rhs = &self.base_init + &self.g.vl;
+        if lhs != rhs || post.base_supply > rhs {
+            tr.fail("C09", "supply_conservation", site, &format!("base {} + locked in circulation {} + pending penalty {} + destroyed {}+{} != initial {} + reward emission {}",
+                post.base_supply, post.circ, post.pp, self.g.pb, self.g.co, self.base_init, self.g.vl));
+        }
+        if !ok {
+            if pre_line != post_line {
+                tr.fail("C08", "failed_tx_changes_state", site, "state differs after a failed transaction");
+                tr.fail("C09", "failed_tx_changes_state", site, "state differs after a failed transaction");
+            }
+            return;
+        }
+        // ---- nobody but the caller / the named destination is touched
+        if inf.who != 0 {
+            for (i, (a, b)) in pre.users.iter().zip(post.users.iter()).enumerate() {
+                let id = i as u64 + 1;
+                if id == inf.who || id == inf.dest {
+                    continue;
+                }
+                if a.base != b.base || a.raw != b.raw || a.locked.iter().ne(b.locked.iter().take(a.locked.len())) || a.wrapped.iter().ne(b.wrapped.iter().take(a.wrapped.len())) || a.queue != b.queue {
+                    tr.fail("C09", "others_untouched", site, &format!("u{} changed by a transaction of u{}", id, inf.who));
+                }
+            }
+        }
+        let now = pre.epoch;
+        let w = (inf.who.max(1) - 1) as usize;
+        let zero = BigUint::zero();
+        let new_nonces = BigUint::from((post.nonces.len() - pre.nonces.len()) as u64);
+        if !new_nonces.is_zero() {
+            tr.count("branch.new_nonce");
+        }
+        let unlock_of = |n: u64| -> u64 { if n >= 1 && (n as usize) <= post.nonces.len() { post.nonces[(n - 1) as usize] } else { 0 } };
+        let lk = |s: &Snap, u: usize, n: u64| -> BigUint { s.users.get(u).and_then(|x| x.locked.get((n.max(1) - 1) as usize)).cloned().unwrap_or_default() };
+        let dco = if post.coll_cell >= pre.coll_cell { &post.coll_cell - &pre.coll_cell } else { zero.clone() };
+        let bp = BigUint::from(pre.bp);
+        let m = BigUint::from(MAXPCT);
+        match site {
+            "lock" | "lockVirtual" => {
+                let amt = &inf.pays[0].1;
+                let d = (inf.dest - 1) as usize;
+                let unlock = som(now + inf.arg_epochs);
+                let nn = inf.outs.0.to_string().parse::<u64>().unwrap();
+                let got = &lk(post, d, nn) - &lk(pre, d, nn);
+                if inf.outs.1 != *amt || got != *amt || unlock_of(nn) != unlock || unlock <= now || !pre.opts.iter().any(|o| o.0 == inf.arg_epochs) {
+                    tr.fail("C09", "lock_1to1", site, &format!("locked {} -> issued {} (result {}) at unlock {} expected {} (now {})", amt, got, inf.outs.1, unlock_of(nn), unlock, now));
+                }
+                if &post.locked_supply - &pre.locked_supply != amt + &new_nonces {
+                    tr.fail("C09", "lock_1to1", site, "locked-token supply did not grow by exactly the locked amount");
+                }
+                if site == "lock" {
+                    let paid = &pre.users[w].base - &post.users[w].base;
+                    if paid != *amt || &pre.base_supply - &post.base_supply != *amt {
+                        tr.fail("C09", "lock_burns_base", site, &format!("paid {} supply change {} for amount {}", paid, &pre.base_supply - &post.base_supply, amt));
+                    }
+                    if inf.dest != inf.who { tr.count("branch.lock_for_other"); }
+                } else if post.base_supply != pre.base_supply {
+                    tr.fail("C09", "virtual_lock_burns_nothing", site, "base supply changed");
+                }
+            }
+            "extend" => {
+                let (n0, amt) = &inf.pays[0];
+                let nn = inf.outs.0.to_string().parse::<u64>().unwrap();
+                let unlock = som(now + inf.arg_epochs);
+                let tot = |s: &Snap| -> BigUint { s.users[w].locked.iter().sum() };
+                if inf.outs.1 != *amt || tot(pre) != tot(post) || unlock_of(nn) != unlock || unlock <= unlock_of(*n0) || post.base_supply != pre.base_supply
+                    || &post.locked_supply - &pre.locked_supply != new_nonces {
+                    tr.fail("C09", "extend_1to1", site, &format!("amount {} -> {} unlock {} -> {}", amt, inf.outs.1, unlock_of(*n0), unlock_of(nn)));
+                }
+                if unlock_of(*n0) < now { tr.count("branch.extend_expired"); }
+            }
+            "unlock" => {
+                let tot: BigUint = inf.pays.iter().map(|p| p.1.clone()).sum();
+                for (nn, _) in inf.pays.iter() {
+                    if unlock_of(*nn) > now {
+                        tr.fail("C09", "unlock_requires_epoch", site, &format!("nonce {} unlocks at {} but was unlocked at {}", nn, unlock_of(*nn), now));
+                    }
+                    if unlock_of(*nn) < now { tr.count("branch.unlock_after_expiry"); }
+                    if unlock_of(*nn) == now { tr.count("branch.unlock_at_epoch"); }
+                }
+                let got = &post.users[w].base - &pre.users[w].base;
+                if got != tot || inf.outs.0 != tot || &post.base_supply - &pre.base_supply != tot || &pre.locked_supply - &post.locked_supply != tot {
+                    tr.fail("C09", "unlock_1to1", site, &format!("unlocked {} received {} result {}", tot, got, inf.outs.0));
+                }
+            }
+            "merge" => {
+                let tot: BigUint = inf.pays.iter().map(|p| p.1.clone()).sum();
+                let nn = inf.outs.0.to_string().parse::<u64>().unwrap();
+                // weighted average rounded up, pair by pair, then month normalisation
+                let mut acc_e = BigUint::from(unlock_of(inf.pays[0].0));
+                let mut acc_w = inf.pays[0].1.clone();
+                for (pn, pa) in inf.pays.iter().skip(1) {
+                    let wsum = &acc_w + pa;
+                    acc_e = (&acc_e * &acc_w + BigUint::from(unlock_of(*pn)) * pa + &wsum - BigUint::one()) / &wsum;
+                    acc_w = wsum;
+                }
+                let e = acc_e.to_string().parse::<u64>().unwrap();
+                let last = pre.opts.last().map(|o| o.0).unwrap_or(0);
+                let exp = if e % 30 == 0 { e } else if som(e) + 30 - now <= last { tr.count("branch.merge_round_up"); som(e) + 30 } else { tr.count("branch.merge_round_down"); som(e) };
+                if unlock_of(nn) != exp || exp <= now {
+                    tr.fail("C08", "merge_epoch", site, &format!("merged unlock epoch {} expected {}", unlock_of(nn), exp));
+                }
+                let totl = |s: &Snap| -> BigUint { s.users[w].locked.iter().sum() };
+                if inf.outs.1 != tot || totl(pre) != totl(post) || &post.locked_supply - &pre.locked_supply != new_nonces || inf.pays.iter().any(|p| unlock_of(p.0) <= now) {
+                    tr.fail("C09", "merge_1to1", site, &format!("merged {} -> {}", tot, inf.outs.1));
+                }
+                if inf.pays.len() > 1 { tr.count("branch.merge_multi"); }
+            }
+            "unlockEarly" | "reduce" => {
+                let (n0, amt) = &inf.pays[0];
+                let old = unlock_of(*n0);
+                let prev = old.saturating_sub(now);
+                let new_ep = if site == "reduce" { inf.arg_epochs - (now + inf.arg_epochs) % 30 } else { 0 };
+                let pen = if site == "reduce" { inf.outs.2.clone() } else { inf.outs.0.clone() };
+                let exp = f_penalty(&pre.opts, amt, prev, new_ep);
+                if old <= now || exp.is_none() || exp.as_ref() != Some(&pen) {
+                    tr.fail("C09", "penalty_formula", site, &format!("amount {} remaining {} new {} options {:?}: charged {} expected {:?}", amt, prev, new_ep, pre.opts, pen, exp));
+                }
+                if pen >= *amt {
+                    tr.fail("C09", "penalty_lt_amount", site, &format!("penalty {} amount {}", pen, amt));
+                }
+                if pen.is_zero() { tr.count("branch.penalty_zero"); }
+                if let Some((q, v)) = self.last_quote.clone() {
+                    if q == format!("penalty {} {} {}", amt, prev, new_ep) {
+                        tr.count("branch.quote_then_exec");
+                        if v != pen {
+                            tr.fail("C20", "quote_eq_exec.penalty", site, &format!("getPenaltyAmount {} but {} charged {}", v, site, pen));
+                        }
+                    }
+                }
+                if site == "unlockEarly" {
+                    let rest = amt - &pen;
+                    let q = post.users[w].queue.last().cloned().unwrap_or_default();
+                    if post.users[w].queue.len() != pre.users[w].queue.len() + 1 || q != (now + self.unbond, *n0, amt.clone(), rest.clone()) {
+                        tr.fail("C09", "unbond_entry", site, &format!("queue entry {:?} expected ({}, {}, {}, {})", q, now + self.unbond, n0, amt, rest));
+                    }
+                    if post.users[w].base != pre.users[w].base || &post.un_base - &pre.un_base != rest || &post.base_supply - &pre.base_supply != rest || post.locked_supply != pre.locked_supply {
+                        tr.fail("C09", "early_unlock_mints_remainder_into_escrow", site, &format!("supply change {} escrow change {} expected {}", &post.base_supply - &pre.base_supply, &post.un_base - &pre.un_base, rest));
+                    }
+                } else {
+                    let nn = inf.outs.0.to_string().parse::<u64>().unwrap();
+                    let rest = amt - &pen;
+                    let burn = &pen * &bp / &m;
+                    if inf.outs.1 != rest || unlock_of(nn) != now + new_ep || unlock_of(nn) % 30 != 0 || unlock_of(nn) >= old || new_ep >= prev {
+                        tr.fail("C09", "reduce_relock", site, &format!("re-locked {} expected {} unlock {} -> {} expected {}", inf.outs.1, rest, old, unlock_of(nn), now + new_ep));
+                    }
+                    if dco != &pen - &burn || &pre.locked_supply + &new_nonces - &post.locked_supply != pen || post.base_supply != pre.base_supply {
+                        tr.fail("C09", "penalty_split", site, &format!("penalty {} burn% {}: collector got {} expected {}", pen, pre.bp, dco, &pen - &burn));
+                    }
+                    if !pen.is_zero() { tr.count("branch.reduce_penalty_paid"); }
+                }
+            }
+            "claim" => {
+                let (q0, q1) = (&pre.users[w].queue, &post.users[w].queue);
+                let cnt = q0.len() - q1.len();
+                if cnt == 0 || cnt > 20 || q0[cnt..] != q1[..] || BigUint::from(cnt as u64) != inf.outs.1 {
+                    tr.fail("C09", "claim_fifo", site, &format!("queue {} -> {} entries, result count {}", q0.len(), q1.len(), inf.outs.1));
+                }
+                let mut paid = zero.clone();
+                let mut coll = zero.clone();
+                let mut burned_locked = zero.clone();
+                for q in q0[..cnt].iter() {
+                    if q.0 > now {
+                        tr.fail("C09", "unbond_gate", site, &format!("entry unbonding until {} paid at {}", q.0, now));
+                    }
+                    if q.0 == now { tr.count("branch.claim_at_unbond_epoch"); }
+                    paid += &q.3;
+                    let pen = &q.2 - &q.3;
+                    coll += &pen - &pen * &bp / &m;
+                    burned_locked += &q.2;
+                }
+                if cnt < 20 && !q1.is_empty() && q1[0].0 <= now {
+                    tr.fail("C09", "claim_fifo", site, "a ripe entry was left in the queue");
+                }
+                if cnt == 20 { tr.count("branch.claim_cap_20"); }
+                let got = &post.users[w].base - &pre.users[w].base;
+                if got != paid || inf.outs.0 != paid || post.base_supply != pre.base_supply || &pre.un_base - &post.un_base != paid {
+                    tr.fail("C09", "claim_pays_remainder", site, &format!("paid {} expected {}", got, paid));
+                }
+                if dco != coll || &pre.locked_supply - &post.locked_supply != burned_locked {
+                    tr.fail("C09", "penalty_split", site, &format!("collector got {} expected {}; locked supply fell by {} expected {}", dco, coll, &pre.locked_supply - &post.locked_supply, burned_locked));
+                }
+            }
+            "cancel" => {
+                let q0 = &pre.users[w].queue;
+                let back: BigUint = q0.iter().map(|q| q.3.clone()).sum();
+                let mut okk = post.users[w].queue.is_empty() && !q0.is_empty();
+                for n in 1..=post.nonces.len() as u64 {
+                    let exp: BigUint = q0.iter().filter(|q| q.1 == n).map(|q| q.2.clone()).sum();
+                    if &lk(post, w, n) - &lk(pre, w, n) != exp { okk = false; }
+                }
+                if q0.iter().any(|q| unlock_of(q.1) < now) { tr.count("branch.cancel_expired_token"); }
+                if q0.iter().any(|q| unlock_of(q.1) == now) { tr.count("branch.cancel_at_unlock_epoch"); }
+                if !okk || &pre.base_supply - &post.base_supply != back || &pre.un_base - &post.un_base != back || post.users[w].base != pre.users[w].base || post.locked_supply != pre.locked_supply {
+                    tr.fail("C09", "cancel_burns_base_returns_locked", site, &format!("base burned {} expected {}", &pre.base_supply - &post.base_supply, back));
+                }
+            }
+            "lockFunds" | "wrap" => {
+                if inf.pays.iter().any(|p| unlock_of(p.0) <= now) {
+                    tr.fail("C08", "escrow_only_live_tokens", site, "an unlockable token entered escrow");
+                }
+                if post.base_supply != pre.base_supply || post.locked_supply != pre.locked_supply || post.circ != pre.circ {
+                    tr.fail("C09", "transfer_conserves_supply", site, "supply changed");
+                }
+            }
+            "withdraw" | "cancelTransfer" | "unwrap" => {
+                if post.base_supply != pre.base_supply || post.locked_supply != pre.locked_supply || post.circ != pre.circ {
+                    tr.fail("C09", "transfer_conserves_supply", site, "supply changed");
+                }
+                // tokens that expired while in escrow
+                let gained: Vec<u64> = (1..=post.nonces.len() as u64).filter(|n| lk(post, w, *n) > lk(pre, w, *n)).collect();
+                if gained.iter().any(|n| unlock_of(*n) <= now) { tr.count(&format!("branch.{}_expired_token", site)); }
+            }
+            _ => {
+                if post.base_supply != pre.base_supply || post.locked_supply != pre.locked_supply {
+                    tr.fail("C09", "config_op_moves_tokens", site, "supply changed");
+                }
+            }
+        }
+    }
+
+    fn oracle_penalty_view(&mut self, tr: &mut Trace, pre: &Snap, amt: &BigUint, prev: u64, new: u64, got: Option<BigUint>) {
+        let exp = f_penalty(&pre.opts, amt, prev, new);
+        if exp != got {
+            tr.fail("C09", "penalty_view_formula", "penalty", &format!("getPenaltyAmount({amt},{prev},{new}) = {:?} expected {:?} options {:?}", got, exp, pre.opts));
+        }
+        if let Some(g) = got {
+            let maxp = pre.opts.last().map(|o| o.1).unwrap_or(0);
+            if g > amt * BigUint::from(maxp) / BigUint::from(MAXPCT) {
+                tr.fail("C09", "penalty_le_max", "penalty", &format!("penalty {g} above amount*{maxp}/10000"));
+            }
+            if new == 0 {
+                // monotone in the remaining time: ask the real view for one epoch more
+                let last = pre.opts.last().map(|o| o.0).unwrap_or(0);
+                if prev < last {
+                    let mut v = BigUint::zero();
+                    let r = self.b.execute_query(&self.fac, |sc| {
+                        v = to_big(&sc.calculate_penalty_amount(&mbig(amt), prev + 1, 0));
+                    });
+                    if r.result_status != 0 || v < g {
+                        tr.fail("C09", "penalty_monotone", "penalty", &format!("penalty({}) = {} > penalty({}) = {}", prev, g, prev + 1, v));
+                    }
+                }
+                if pre.opts.iter().any(|o| o.0 == prev) {
+                    tr.count("branch.penalty_at_option");
+                    let p = pre.opts.iter().find(|o| o.0 == prev).unwrap().1;
+                    if g != amt * BigUint::from(p) / BigUint::from(MAXPCT) {
+                        tr.fail("C09", "penalty_at_option", "penalty", &format!("at option {prev}: {g}"));
+                    }
+                }
+            }
+        }
+    }
+}
 
 fn main() {
     run_world::<EnergyWorld>();
